@@ -81,7 +81,9 @@ def water_permittivity(
                         warnings.warn("Outside pressure range (5000 bar)")
     B = U[6] + U[7] / T + U[8] * T
     C = U[3] + U[4] / (U[5] + T)
-    eps1000 = U[0] * be.exp(U[1] * T + U[2] * T ** 2)
+    exponent = U[1] * T + U[2] * T ** 2
+    exponent = getattr(exponent, "simplified", exponent)  # e.g. mK/K -> dimensionless
+    eps1000 = U[0] * be.exp(exponent)
     return eps1000 + C * be.log((B + P) / (B + 1000.0 * bar))
 
 
